@@ -39,14 +39,14 @@ Definition parse_request_line (line : bytes) : option (bytes * bytes * bytes) :=
     end
   end.
 
+(* splitn(2, ": ") (fix 2afe83c: the value keeps any further ": "), CR and LF removed from both pieces *)
 Definition parse_header_line (line : bytes) : header :=
-  match split line COLON_SP with
-  | n :: v :: _ => mkH (truncate_nl_cr n) (truncate_nl_cr v)
-  | [n] => mkH (truncate_nl_cr n) []
-  | [] => mkH [] []
+  match split_once line COLON_SP with
+  | Some (n, v) => mkH (truncate_nl_cr n) (truncate_nl_cr v)
+  | None => mkH (truncate_nl_cr line) []
   end.
 
-(* the recursive part of Request::cursor_read (iteration_number >= 1).
+(* the header-line loop of Request::cursor_read (iteration_number >= 1; a loop since fix f185786).
    Returns the headers pushed and what ends up in request.body. *)
 Fixpoint headers_loop (fuel : nat) (rest : bytes) : res (list header * bytes) :=
   match fuel with
@@ -74,25 +74,22 @@ Definition parse_request (input : bytes) : res request :=
   | None => Err EReqLine
   | Some (m, u, v) =>
     match headers_loop (S (length rest)) rest with
-    | Ok (hs, bd) => Ok (mkR m u v (empty_header :: hs) bd)
+    | Ok (hs, bd) => Ok (mkR m u v hs bd)        (* fix 5df341a: no empty header for the request line *)
     | Err e => Err e
     | Panic p => Panic p
     end
   end.
 
-(* recursion depth of cursor_read: one frame per header line *)
-Definition depth (input : bytes) : nat :=
-  match parse_request input with Ok r => length (headers r) | _ => 0%nat end.
 
 (* quick sanity checks against the behaviour observed on the implementation *)
 Definition s2b (l : list N) := l.
 Example ex1 : parse_request ([71;69;84;32;47;120;32;72;84;84;80;47;49;46;49;32;13;10] (* "GET /x HTTP/1.1 \r\n" *)
                              ++ [65;58;32;98;58;32;99;13;10] (* "A: b: c\r\n" *)
                              ++ [13;10] ++ [120])
-  = Ok (mkR [71;69;84] [47;120] [72;84;84;80;47;49;46;49] [empty_header; mkH [65] [98]] [120]).
+  = Ok (mkR [71;69;84] [47;120] [72;84;84;80;47;49;46;49] [mkH [65] [98;58;32;99]] [120]).
 Proof. vm_compute. reflexivity. Qed.
 Example ex2 : parse_request [71;69;84;32;32;47;32;72;84;84;80;47;49;46;49;13;10;13;10] = Err EReqLine.   (* two spaces *)
 Proof. vm_compute. reflexivity. Qed.
 Example ex3 : parse_request ([71;69;84;32;47;32;72;84;84;80;47;49;46;49;13;10] ++ content_length_name ++ [58;32;97;13;10;13;10])
-  = Ok (mkR [71;69;84] [47] [72;84;84;80;47;49;46;49] [empty_header] [13;10]).
+  = Ok (mkR [71;69;84] [47] [72;84;84;80;47;49;46;49] [] [13;10]).
 Proof. vm_compute. reflexivity. Qed.
